@@ -9,6 +9,7 @@ CONSTANTS
   AllowImport = TRUE
   PersistIns = "sync"
   PersistRem = "none"
+  CommitFlush = TRUE
   OneBatch = TRUE
   CasFirst = TRUE
   Gen = FALSE
